@@ -1,10 +1,11 @@
 #!/bin/bash
-# run_all_seeds.sh [tier]: run every adopted seed against its property's check (4 at a time); prints one line per seed.
+# run_all_seeds.sh [tier]: run every adopted seed against its property's check (4 at a time); one line per seed into
+# seeded/results-<tier>.txt (and stdout).
 TIER=${1:-quick}
 cd /verif
-ls seeded | while read id; do
-  pid=${id%%-*}
-  [ -f vf/props/$(echo $pid | tr A-Z a-z).py ] || { echo "$id [$pid]: NO-CHECK-YET"; continue; }
-  grep -q '"status": "obsolete' seeded/$id/meta.json 2>/dev/null && { echo "$id: OBSOLETE"; continue; }
-  echo $id
-done | grep -v ":" | xargs -P 4 -I{} tools/run_seed.sh {} $TIER
+ls seeded | grep -E '^C[0-9]+-[0-9]+$' | while read id; do
+  grep -q '"status": "obsolete' seeded/$id/meta.json 2>/dev/null && continue
+  with=$(python3 -c "import json;print(json.load(open('seeded/$id/meta.json')).get('run_with',''))" 2>/dev/null)
+  echo "$id $TIER $with"
+done | xargs -P 4 -L1 tools/run_seed.sh 2>&1 | grep -E '^C[0-9]+-[0-9]+' | tee seeded/results-$TIER.txt.tmp
+sort -V seeded/results-$TIER.txt.tmp > seeded/results-$TIER.txt; rm -f seeded/results-$TIER.txt.tmp
